@@ -58,6 +58,8 @@ pub struct CustomBuilder<'a, const PT: u8, const MIN: usize, const SSRC: bool> {
     pub padding: u8,
     pub count: u8,
     pub payload: &'a [u8],
+    /// a third-party writer may report "no padding" as Some(0) (the trait allows it)
+    pub some0: bool,
 }
 
 impl<'a, const PT: u8, const MIN: usize, const SSRC: bool> RtcpPacketWriter for CustomBuilder<'a, PT, MIN, SSRC> {
@@ -83,7 +85,11 @@ impl<'a, const PT: u8, const MIN: usize, const SSRC: bool> RtcpPacketWriter for 
 
     fn get_padding(&self) -> Option<u8> {
         if self.padding == 0 {
-            None
+            if self.some0 {
+                Some(0)
+            } else {
+                None
+            }
         } else {
             Some(self.padding)
         }
